@@ -275,6 +275,10 @@ class _ObjectPathComponent(object):
             if not component_name.needs_to_be_quoted:
                 # taken from pattern text: still carries the escapes
                 name = re.sub(r"\\(.)", r"\1", name)
+            if re.fullmatch(r"'(?:[^'\\]|\\['\\])*'", name):
+                # a name which itself looks like a quoted step: keep it
+                # quoted, or printing would take the quotes for quoting
+                name = "'" + escape_quotes_and_backslashes(name) + "'"
             return BasicObjectPathComponent(name, False)
         elif component_name.endswith("_ref"):
             return ReferenceObjectPathComponent(component_name)
